@@ -6,6 +6,7 @@ import (
 
 	"gonum.org/v1/gonum/graph"
 	"gonum.org/v1/gonum/graph/network"
+	"gonum.org/v1/gonum/graph/simple"
 	"pgregory.net/rapid"
 	"verifharness/vk"
 )
@@ -155,9 +156,41 @@ func checkPageRank(c prCase) *vk.Failure {
 	if n >= 4 && m.hasDanglingOrIsolated() {
 		vk.NonTrivial("pagerank", m.hash(), weighted, d, tol)
 	}
+	// Arcs of weight zero (W == 0 in the case) exist only in the weighted
+	// container: they carry no rank, and a node whose out-weights sum to zero
+	// is dangling in the defining column-stochastic matrix although it has
+	// out-edges. The model m ignores them, which is exactly that matrix.
+	var zeroArcs []edgeT
+	if weighted {
+		seen := map[[2]int]bool{}
+		for _, e := range c.G.Edges {
+			k := [2]int{e.U, e.V}
+			if float64(e.W) != 0 || e.U == e.V || e.U < 0 || e.V < 0 || e.U >= n || e.V >= n || m.has(e.U, e.V) || seen[k] {
+				continue
+			}
+			seen[k] = true
+			zeroArcs = append(zeroArcs, e)
+		}
+	}
+	zeroOnly := false // some node has out-edges, all of weight zero
+	for _, e := range zeroArcs {
+		if m.outDeg(e.U) == 0 {
+			zeroOnly = true
+		}
+	}
+	if len(zeroArcs) > 0 {
+		vk.Class("pagerank:zero-weight-arcs")
+	}
+	if zeroOnly {
+		vk.Class("pagerank:node-with-only-zero-weight-out-arcs")
+	}
 	var g graph.Directed
 	if weighted {
-		g = m.buildWeighted().(graph.Directed)
+		wg := m.buildWeighted().(*simple.WeightedDirectedGraph)
+		for _, e := range zeroArcs {
+			wg.SetWeightedEdge(simple.WeightedEdge{F: m.node(e.U), T: m.node(e.V), W: 0})
+		}
+		g = wg
 	} else {
 		g = m.buildUnweighted().(graph.Directed)
 	}
@@ -250,6 +283,33 @@ func drawPR(t *rapid.T) prCase {
 	c := prCase{}
 	c.Weighted = rapid.Bool().Draw(t, "weighted")
 	c.G = drawGraph(t, true, !c.Weighted, 60)
+	if c.Weighted && c.G.N >= 2 && rapid.IntRange(0, 2).Draw(t, "zeros") == 0 {
+		// zero-weight arcs: all out-arcs of a few nodes become zero, plus a
+		// few zero arcs anywhere
+		k := rapid.IntRange(1, 3).Draw(t, "zeronodes")
+		for ; k > 0; k-- {
+			x := rapid.IntRange(0, c.G.N-1).Draw(t, "zeronode")
+			has := false
+			for i := range c.G.Edges {
+				if c.G.Edges[i].U == x {
+					c.G.Edges[i].W = 0
+					has = true
+				}
+			}
+			if !has {
+				y := rapid.IntRange(0, c.G.N-2).Draw(t, "zeroto")
+				if y >= x {
+					y++
+				}
+				c.G.Edges = append(c.G.Edges, edgeT{x, y, 0})
+			}
+		}
+		for k := rapid.IntRange(0, 3).Draw(t, "zeroextra"); k > 0; k-- {
+			u := rapid.IntRange(0, c.G.N-1).Draw(t, "zu")
+			v := rapid.IntRange(0, c.G.N-1).Draw(t, "zv")
+			c.G.Edges = append(c.G.Edges, edgeT{u, v, 0})
+		}
+	}
 	switch rapid.IntRange(0, 5).Draw(t, "dampcls") {
 	case 0:
 		c.Damp = 0.85
@@ -268,5 +328,24 @@ func TestPageRank(t *testing.T) {
 	vk.Enumerate(t, "pagerank-exh", len(gs), func(i int) prCase {
 		return prCase{G: graphFromMask(gs[i].n, true, gs[i].mask), Weighted: i%2 == 1, Damp: vk.F(damps[i%len(damps)]), Tol: vk.F(tolSet[i%len(tolSet)])}
 	}, checkPageRank)
-	vk.Run(t, "pagerank", vk.Opts{Quick: 4000, Thorough: 90000}, drawPR, checkPageRank)
+	// the same graphs in the weighted container with every subset of nodes
+	// having all its out-arcs at weight zero (n <= 3)
+	var zc []prCase
+	for _, eg := range exhGraphs(true, 1, 3) {
+		for sub := 1; sub < 1<<eg.n; sub++ {
+			c := prCase{G: graphFromMask(eg.n, true, eg.mask), Weighted: true, Damp: vk.F(damps[len(zc)%len(damps)]), Tol: 1e-8}
+			hit := false
+			for i := range c.G.Edges {
+				if sub>>c.G.Edges[i].U&1 == 1 {
+					c.G.Edges[i].W = 0
+					hit = true
+				}
+			}
+			if hit {
+				zc = append(zc, c)
+			}
+		}
+	}
+	vk.Enumerate(t, "pagerank-exh-zero-weights", len(zc), func(i int) prCase { return zc[i] }, checkPageRank)
+	vk.Run(t, "pagerank", vk.Opts{Quick: 8000, Thorough: 180000}, drawPR, checkPageRank)
 }
